@@ -140,6 +140,35 @@ pub fn sketch(cfg: usize, seed: u64) -> Vec<u64> {
             s.hash_weigthed_idxmap(&im);
             s.get_signature().clone()
         }
+        18 => {
+            // registers above 65535 (b close to 1, large q): a u32 sketcher must not inherit anything from a u16 one
+            let mut s = SetSketcher::<u32, u64, FnvHasher>::new(SetSketchParams::new(1.0001, (m * 4) as u64, 20., (1 << 20) - 2), bh());
+            s.sketch_slice(&ids).unwrap();
+            s.get_signature().iter().map(|x| *x as u64).collect()
+        }
+        19 | 20 | 21 => {
+            // large sketch sizes (beyond 4096, or around the sizes suggested by the driver), after the small ones above
+            let xs = extra_sizes();
+            let mut r2 = SplitMix64::new(seed ^ (cfg as u64) << 7);
+            let big = near_size(&mut r2, &xs, 200_000).map(|v| v as usize + 2).unwrap_or([5000usize, 8192, 4099][cfg % 3]);
+            match cfg / 3 {
+                19 => {
+                    let mut s = SetSketcher::<u16, u64, FnvHasher>::new(SetSketchParams::new(1.001, big as u64, 20., 65534), bh());
+                    s.sketch_slice(&ids).unwrap();
+                    s.get_signature().iter().map(|x| *x as u64).collect()
+                }
+                20 => {
+                    let mut s = SuperMinHash2::<u64, u64, FnvHasher>::new(big, bh());
+                    s.sketch_slice(&ids).unwrap();
+                    s.get_hsketch().clone()
+                }
+                _ => {
+                    let mut s = ProbMinHash2::<u64, FnvHasher>::new(big, u64::MAX);
+                    for (i, w) in &data { s.hash_item(*i, *w); }
+                    s.get_signature().clone()
+                }
+            }
+        }
         10 => {
             let mut s = OptDensMinHash::<f64, u64, FnvHasher>::new(m * 8, bh());
             s.sketch_slice(&ids).unwrap();
@@ -157,20 +186,33 @@ pub fn sketch(cfg: usize, seed: u64) -> Vec<u64> {
     }
 }
 
-pub const NCFG: usize = 54;
-pub const NAMES: [&str; 18] = ["ProbMinHash3", "ProbMinHash3a", "ProbMinHash3aSha", "ProbMinHash2", "ProbOrdMinHash2",
+pub const NCFG: usize = 66;
+pub const NAMES: [&str; 22] = ["ProbMinHash3", "ProbMinHash3a", "ProbMinHash3aSha", "ProbMinHash2", "ProbOrdMinHash2",
     "SuperMinHash<f64>", "SuperMinHash<f32>", "SuperMinHash2", "SetSketcher<u16>", "SetSketcher<u32>", "OptDensMinHash", "RevOptDensMinHash",
     "ProbMinHash3a (std HashMap)", "ProbMinHash2 (std HashMap)", "ProbMinHash3aSha<Vec<u32>>", "ProbMinHash3aSha<Vec<u16>>",
-    "ProbMinHash3aSha<String>", "ProbMinHash3 (IndexMap)"];
+    "ProbMinHash3aSha<String>", "ProbMinHash3 (IndexMap)", "SetSketcher<u32> (registers above 65535)",
+    "SetSketcher<u16> (large m)", "SuperMinHash2 (large m)", "ProbMinHash2 (large m)"];
 
 pub fn run(args: &[String]) {
     let seed = arg_u64(args, "--seed", 1);
     std::panic::set_hook(Box::new(|_| {}));
     let mut out: Vec<Value> = Vec::new();
     let mut diffs: Vec<Value> = Vec::new();
-    for cfg in 0..NCFG {
-        let a = sketch(cfg, seed);
-        let b = sketch(cfg, seed);
+    // a second process runs the configurations in the opposite order: sketches are pure, so the order cannot matter
+    let rev = arg_str(args, "--order").map(|s| s == "rev").unwrap_or(false);
+    // (in the reversed run the u32 sketcher with registers above 65535 comes before every other SetSketcher)
+    let order: Vec<usize> = if rev { (54..57).chain((0..NCFG).rev().filter(|c| !(54..57).contains(c))).collect() } else { (0..NCFG).collect() };
+    for cfg in order {
+        let ra = std::panic::catch_unwind(|| sketch(cfg, seed));
+        let rb = std::panic::catch_unwind(|| sketch(cfg, seed));
+        let (a, b) = match (ra, rb) {
+            (Ok(a), Ok(b)) => (a, b),
+            _ => {
+                diffs.push(json!({"cfg": cfg, "sketcher": NAMES[cfg / 3], "where": "a panic while sketching (other configurations ran before it in this process)"}));
+                out.push(json!({"cfg": cfg, "sketcher": NAMES[cfg / 3], "words": [-1]}));
+                continue;
+            }
+        };
         if a != b {
             diffs.push(json!({"cfg": cfg, "sketcher": NAMES[cfg / 3], "where": "two instances in one thread"}));
         }
@@ -184,5 +226,6 @@ pub fn run(args: &[String]) {
         }
         out.push(json!({"cfg": cfg, "sketcher": NAMES[cfg / 3], "words": a}));
     }
+    crate::util::wd_pause();
     println!("{}", json!({"sketches": out, "diffs": diffs}));
 }
